@@ -78,6 +78,20 @@ pub fn check_pair(run: &mut Run, a: MCell, b: MCell, depth: i32) {
             }
         }
     }
+    // the default request (None = one level up), also for an accepted non-canonical spelling of the smaller cell: the word still
+    // sorts before b (the stray bit sits below the marker), so what is reported as its parent must not sort after b's parent
+    if (ia >> 7) % 4 == 0 && a.res >= 1 {
+        let mut arng = Rng::stream(ia, "C20.alias", ib);
+        let wa = stray_alias(&mut arng, a).filter(|w| *w < ib).unwrap_or(ia);
+        run.count(if wa != ia { "default_parent.alias_spelling_of_a" } else { "default_parent.canonical" });
+        if let (Ok(pa), Ok(pb)) = (parent(wa, None), parent(ib, None)) {
+            let want = parent_at(a, a.res - 1).map(encode);
+            if Some(pa) != want || pa > pb {
+                run.violation("C20.default_parent", json!({"a": hu(wa), "b": hu(ib), "res": a.res, "depth": depth, "canonical_a": hu(ia)}), format!("cell_to_parent({}, None) = {} (the cell's parent is {:?}); b's parent is {}: a < b but the reported parents do not keep that order or are not the parents", hu(wa), hu(pa), want.map(hu), hu(pb)));
+                return;
+            }
+        }
+    }
     let t = (a.res + depth).min(MAX_RES);
     if t > a.res {
         match (children(ia, Some(t)), children(ib, Some(t))) {
